@@ -547,15 +547,21 @@ class World:
             was = before_state.get(id(o))
             now = (o in seeds, frozenset(a for a in self.attrs if a in o._vals_), frozenset(a for a in self.attrs if o._dbvals_ is not None and a in o._dbvals_))
             if was is None: was = (True, frozenset(), frozenset())
+            wcls = before_state.get(('cls', id(o)), self.cidx(o))
             if was != now and tuple(self.pkl(o)) in rows:
                 mops.append(self.row_mop(rows[tuple(self.pkl(o))]))
+            elif wcls != self.cidx(o):
+                # a typed reference (R.f -> E1) named an object known as its base class: class refinement without a load
+                mops.append({'k': 'seed', 'cls': self.cidx(o), 'pk': self.pkl(o)})
         return mops
 
     def load_state(self):
         cache = self.cache()
         seeds = cache.seeds[self.pk_attrs]
-        return {id(o): (o in seeds, frozenset(a for a in self.attrs if o._vals_ is not None and a in o._vals_),
-                        frozenset(a for a in self.attrs if o._dbvals_ is not None and a in o._dbvals_)) for o in self.objs}
+        st = {id(o): (o in seeds, frozenset(a for a in self.attrs if o._vals_ is not None and a in o._vals_),
+                      frozenset(a for a in self.attrs if o._dbvals_ is not None and a in o._dbvals_)) for o in self.objs}
+        for o in self.objs: st[('cls', id(o))] = self.cidx(o)
+        return st
 
     def op_nav(self, op):
         """r = R[id]; r.e / r.f"""
@@ -602,7 +608,12 @@ class World:
         err, res = self.call(lambda: pickle.loads(data))
         ys = []
         if err is None: self.reg(res); ys = [res]
-        return {'err': err, 'yields': ys, 'mops': [self.row_mop(row, unpickling=True)]}
+        out = {'err': err, 'yields': ys, 'mops': [self.row_mop(row, unpickling=True)]}
+        if self.P is not None and err == 'UnrepeatableReadError':
+            # the stale pickle names a parent whose `items` collection is fully loaded and does not contain the (deleted) object:
+            # `db_reverse_add` refuses the phantom — relationship code, outside this model; the history ends here
+            out['outside_model'] = True; out['end'] = True
+        return out
 
     def op_proxy(self, op):
         o = self.obj(op['o'])
